@@ -3,7 +3,7 @@
 // subgraphs answered by the Coq-extracted reference executor, and compares with the monolithic
 // execution of the same operation by that executor.
 //
-//	c01 gen    -seed S -n N [-from I] [-unis U] [-knobs K] -out cases [-replaydir D] [-shrink M]
+//	c01 gen    -seed S -n N [-from I] [-unis U] [-knobs K] -out cases [-replaydir D] [-shrink M] [-shrinkskip RE] [-seeded misroute]
 //	c01 one    -seed S -index I [-uni J] [-knobs K] [-exact 1] [-v 1]
 //	c01 replay -in FILE|DIR [-out cases] [-replaydir D] [-v 1]   (self-contained replay / corpus files)
 //	c01 shrink -seed S -index I [-uni J] [-knobs K]
@@ -14,11 +14,14 @@ import (
 	"fmt"
 	"os"
 	"path/filepath"
+	"regexp"
 	"strings"
 	"time"
 
 	"gvh/common"
 	"gvh/fedlab"
+
+	"github.com/wundergraph/graphql-go-tools/v2/pkg/engine/plan"
 )
 
 type runner struct {
@@ -28,6 +31,40 @@ type runner struct {
 	labUni   string
 	replays  string
 	nReplays int
+	seeded   string // self-test: a defect injected into the planner metadata ("misroute")
+}
+
+// seededMetadata injects a configuration defect the check must notice: every subgraph claims,
+// for each entity it declares, one field that only another subgraph has.
+func (r *runner) seededMetadata(cfg *fedlab.Config) func(g *fedlab.Subgraph, md *plan.DataSourceMetadata) {
+	if r.seeded == "ownexternal" {
+		// every @external field is claimed as owned: the planner may fetch it from a subgraph
+		// that cannot resolve it (the upstream query stays valid, only request_owned notices)
+		return func(g *fedlab.Subgraph, md *plan.DataSourceMetadata) {
+			for i := range md.RootNodes {
+				md.RootNodes[i].FieldNames = append(md.RootNodes[i].FieldNames, md.RootNodes[i].ExternalFieldNames...)
+				md.RootNodes[i].ExternalFieldNames = nil
+			}
+		}
+	}
+	if r.seeded != "misroute" {
+		return nil
+	}
+	return func(g *fedlab.Subgraph, md *plan.DataSourceMetadata) {
+		for i := range md.RootNodes {
+			tn := md.RootNodes[i].TypeName
+			st, sup := g.Type(tn), cfg.Super.Type(tn)
+			if tn == cfg.Super.Query || st == nil || sup == nil {
+				continue
+			}
+			for _, fd := range sup.Fields {
+				if st.Field(fd.Name) == nil {
+					md.RootNodes[i].FieldNames = append(md.RootNodes[i].FieldNames, fd.Name)
+					break
+				}
+			}
+		}
+	}
 }
 
 func (r *runner) close() {
@@ -63,7 +100,7 @@ func (r *runner) labFor(c *fedlab.Case, key string) (*fedlab.Lab, error) {
 		r.lab.Close()
 		r.lab = nil
 	}
-	lab, err := fedlab.NewLab(c.Cfg, c.Uni, r.exec, fedlab.EngineOptions{})
+	lab, err := fedlab.NewLab(c.Cfg, c.Uni, r.exec, fedlab.EngineOptions{DataSourceMetadata: r.seededMetadata(c.Cfg)})
 	if err != nil {
 		return nil, err
 	}
@@ -210,10 +247,14 @@ func cmdGen(a map[string]string) {
 	from := common.ArgInt(a, "from", 0)
 	unis := common.ArgInt(a, "unis", 1)
 	maxShrink := common.ArgInt(a, "shrink", 2)
+	var skipShrink *regexp.Regexp
+	if a["shrinkskip"] != "" {
+		skipShrink = regexp.MustCompile(a["shrinkskip"])
+	}
 	knobs := fedlab.ParseKnobs(a["knobs"])
 	out := common.NewOut(a["out"])
 	defer out.Close()
-	r := &runner{replays: a["replaydir"]}
+	r := &runner{replays: a["replaydir"], seeded: a["seeded"]}
 	defer r.close()
 	t0 := time.Now()
 	evals, fails, shrunk := 0, 0, 0
@@ -232,7 +273,7 @@ func cmdGen(a map[string]string) {
 				fails++
 				rp := mkReplay(c, v, true, r.lab)
 				path = r.writeReplay(rp, "")
-				if shrunk < maxShrink {
+				if shrunk < maxShrink && (skipShrink == nil || !skipShrink.MatchString(v.FailDetail())) {
 					shrunk++
 					if sp := r.shrink(c, v); sp != "" {
 						path = sp
